@@ -92,8 +92,9 @@ Print Assumptions C11_inadmissible_refused.
    sets the instance variable of that name when the variable -- own or inherited, found by precedence -- is inittable,
    and otherwise goes to the plist handed to :init when it is an init keyword found by precedence (own or inherited
    :default-init-plist / :init-keywords entry); any other keyword is refused.  A name that is both a variable and a keyword
-   is a variable first.  [s_make_code] reads inittable-ness and the required keywords from the instantiated flavor's
-   own declaration, as the code does; on the guard g_init that is also what inheritance of these two options demands. *)
+   is a variable first.  [s_make_code] is the code's rule on the specification's tables: since repo_fixes/C11-4 and C11-5 the
+   inittable set and the required keywords are inherited (union over the precedence list); it differs from [s_make] only in
+   reading an EMPTY inherited set as "every variable" (see (9c)). *)
 Theorem C11_make_instance_code_rule : forall h f args, wf h = true -> defined (decls h) f = true ->
   make_instance (final h) f args = s_make_code (decls h) f args.
 Proof. exact make_instance_code_rule. Qed.
@@ -106,17 +107,43 @@ Theorem C11_make_instance_order_irrelevant : forall h h', wf h = true -> wf h' =
   forall f args, defined (decls h) f = true -> make_instance (final h) f args = make_instance (final h') f args.
 Proof. exact order_irrelevant_make. Qed.
 Print Assumptions C11_make_instance_order_irrelevant.
-(* outside g_init the code does not inherit the two options (known findings) *)
-Theorem C11_initable_not_inherited_refuted :
-  wf h_inits = true /\ make_instance (final h_inits) 2 [(0, 5%Z)] = None /\
-  s_make (decls h_inits) 2 [(0, 5%Z)] = Some ([(0, 5%Z)], []) /\ g_init (decls h_inits) 2 [(0, 5%Z)] = false.
-Proof. exact initable_not_inherited. Qed.
-Print Assumptions C11_initable_not_inherited_refuted.
-Theorem C11_required_not_inherited_refuted :
-  wf h_reqs = true /\ make_instance (final h_reqs) 2 [] = Some ([], []) /\ make_instance (final h_reqs) 1 [] = None /\
-  s_make (decls h_reqs) 2 [] = None /\ g_init (decls h_reqs) 2 [] = false.
-Proof. exact required_not_inherited. Qed.
-Print Assumptions C11_required_not_inherited_refuted.
+(* (9c) the guard g_init after repo_fixes/C11-4 and C11-5 (the inittable set and the required init keywords are
+   inherited): it holds for EVERY argument list unless some flavor of the precedence list has the
+   :inittable-instance-variables option while no flavor of the list lists any variable. *)
+Theorem C11_init_guard_inherited : forall ds f args,
+  existsb (has_inits ds) (prec ds f) = false \/ s_initable_all ds f <> [] -> g_init ds f args = true.
+Proof. exact g_init_inherited. Qed.
+Print Assumptions C11_init_guard_inherited.
+(* the witnesses of the two former findings are inside the guard now, and make-instance answers what s_make demands *)
+Theorem C11_initable_inherited_example :
+  wf h_inits = true /\ g_init (decls h_inits) 2 [(0, 5%Z)] = true /\
+  make_instance (final h_inits) 2 [(0, 5%Z)] = Some ([(0, 5%Z)], []) /\
+  s_make (decls h_inits) 2 [(0, 5%Z)] = Some ([(0, 5%Z)], []).
+Proof. exact initable_inherited_example. Qed.
+Print Assumptions C11_initable_inherited_example.
+Theorem C11_required_inherited_example :
+  wf h_reqs = true /\ g_init (decls h_reqs) 2 [] = true /\
+  make_instance (final h_reqs) 2 [] = None /\ make_instance (final h_reqs) 1 [] = None /\
+  make_instance (final h_reqs) 2 [(2, 4%Z)] = Some ([], [(2, 4%Z)]) /\ s_make (decls h_reqs) 2 [] = None.
+Proof. exact required_inherited_example. Qed.
+Print Assumptions C11_required_inherited_example.
+(* the code before these two patches (model version [before_io]) kept both options per flavor *)
+Theorem C11_original_initable_not_inherited_refuted :
+  make_instance (fst (run before_io init h_inits)) 2 [(0, 5%Z)] = None /\
+  s_make (decls h_inits) 2 [(0, 5%Z)] = Some ([(0, 5%Z)], []).
+Proof. exact initable_not_inherited_original. Qed.
+Print Assumptions C11_original_initable_not_inherited_refuted.
+Theorem C11_original_required_not_inherited_refuted :
+  make_instance (fst (run before_io init h_reqs)) 2 [] = Some ([], []) /\ make_instance (fst (run before_io init h_reqs)) 1 [] = None /\
+  s_make (decls h_reqs) 2 [] = None.
+Proof. exact required_not_inherited_original. Qed.
+Print Assumptions C11_original_required_not_inherited_refuted.
+(* still outside g_init (known finding C11-bare-inittable-on-varless-flavor): a bare option on a flavor without variables *)
+Theorem C11_bare_inittable_on_varless_flavor_refuted :
+  wf h_bare = true /\ g_init (decls h_bare) 2 [(1, 5%Z)] = false /\
+  make_instance (final h_bare) 2 [(1, 5%Z)] = Some ([(1, 5%Z)], []) /\ s_make (decls h_bare) 2 [(1, 5%Z)] = None.
+Proof. exact bare_inittable_on_varless_flavor. Qed.
+Print Assumptions C11_bare_inittable_on_varless_flavor_refuted.
 (* non-vacuity: x is an inittable variable of base and an init keyword of a mixin; the variable is set, k1 goes to :init *)
 Theorem C11_example_make_instance :
   wf h_initvar = true /\ g_init (decls h_initvar) 3 [(0, 5%Z); (2, 9%Z)] = true /\
